@@ -150,9 +150,10 @@ def insertEmptyParagraph (d : Doc) (index : Option Nat) : Doc :=
     let kids := insertAt d.kids i (para :: sep)
     { kids := kids, handles := shiftIns d.handles i (1 + sep.length) ++ [some i] }
   | none =>
-    -- `self.0.children().count()`: the number of child NODES is used as the insertion position
-    let pos := nodeCount
-    -- `terminate_last_line(&self.0)`: the separator must not double as a line terminator
+    -- `terminate_last_line(&self.0)`: the separator must not double as a line terminator; then
+    -- `self.0.children_with_tokens().count()` (since 3e9d9ab, F-C05-3): the end of the child list,
+    -- nodes and tokens alike
+    let pos := (terminateLastLine d.kids).length
     let kids := insertAt (terminateLastLine d.kids) pos (sep ++ [para])
     { kids := kids, handles := shiftIns d.handles pos (1 + sep.length) ++ [some (pos + sep.length)] }
 
